@@ -1911,7 +1911,7 @@ class AdvancedTag(object):
 
         # Check if we need to match against any other names
         if len(classNames) > 0:
-            elements = [ em for em in elements for matchClassName in classNames  if matchClassName in em.classList ]
+            elements = [ em for em in elements if all(matchClassName in em.classList for matchClassName in classNames) ]
 
         return TagCollection(elements)
 
@@ -2437,9 +2437,10 @@ class TagCollection(list):
             return ret
 
         # Check for multiple class names
-        classNames = className.split(' ')
+        classNames = [x.strip() for x in className.strip().split(' ') if x.strip()]
         if len(classNames) <= 1:
             # Simple - 1 class name
+            className = className.strip()
             _cmpFunc = lambda tag : tag.hasClass(className)
         else:
             # Multiple class names
